@@ -161,6 +161,19 @@ def handleParse (j : Json) : R Json := do
     | .bad => pure (Json.mkObj [("ok", Json.bool false)])
   | k => throw s!"unknown parse kind {k}"
 
+def rnodeToJson : RNode → Json
+  | .tok e t => natsToJson [e, t]
+  | .bd e t k => natsToJson [e, t, k]
+
+def rattrToStr : RAttr → String
+  | .atom => "atom" | .prob => "prob" | .termProb => "term_prob" | .transProb => "trans_prob"
+
+def handleRGraph (j : Json) : R Json := do
+  let els ← listOf elementOf (← getF j "els")
+  let adds := reactionAdds els
+  pure (Json.mkObj [("adds", Json.arr (adds.map fun a =>
+    Json.arr #[rnodeToJson a.src, rnodeToJson a.dst, Json.str (rattrToStr a.attr), ratToJson a.val]).toArray)])
+
 def handle (j : Json) : R Json := do
   let op ← strOf (← getF j "op")
   match op with
@@ -172,6 +185,7 @@ def handle (j : Json) : R Json := do
   | "SYSGEN" => handleSysGen j
   | "FFRUN" => handleFFRun j
   | "PARSE" => handleParse j
+  | "RGRAPH" => handleRGraph j
   | "ASSIGN" => handleAssign j
   | "COMPATMAT" => handleCompatMat j
   | _ => throw s!"unknown op {op}"
